@@ -602,4 +602,3 @@ func nilIfErr[T any](k *T, err error) (any, error) {
 	}
 	return k, err
 }
-
